@@ -58,6 +58,7 @@ Event ==
      \/ /\ e.ev = "res" /\ e.thr \in {"c1", "c2", "c3"} /\ Stutter /\ UNCHANGED lastres
         /\ cpc[e.thr] = "start" /\ lastres[e.thr].k # "none"
         /\ IF e.r = "ok" THEN lastres[e.thr] = ValOf(e.v) ELSE lastres[e.thr].k = "nothing"
+     \/ /\ e.ev = "hook" /\ e.pt = "bq.loader.start" /\ lpc \in {"idle", "woken"} /\ Stutter /\ UNCHANGED lastres   \* before the first receive (the silent LoaderWake may already be taken)
      \/ /\ e.ev = "hook" /\ e.pt = "bq.loader.woken" /\ lpc = "woken" /\ Stutter /\ UNCHANGED lastres
      \/ /\ e.ev = "hook" /\ e.pt = "bq.loader.checked" /\ LoaderCheck /\ UNCHANGED lastres
      \/ /\ e.ev = "hook" /\ e.pt = "bq.loader.locked" /\ LoaderLock /\ UNCHANGED lastres /\ SnapOK(e)
